@@ -36,20 +36,20 @@ theorem setF_lazyBranch (w : FW) (tail : List Bool) (kw : List (Nat × In))
     (fun x hx => by simp [Nat.blt_eq, hlt x hx])
   have hf2 := filter_fst_all kw (fun x => Nat.blt x.fst (clsOf w.sch w.c).cols.length) (fun x => (PV.name x.fst).pair (ofVal x.snd.val))
     (fun x hx => by simp [Nat.blt_eq, hlt x hx])
-  obtain ⟨hOk, hBad⟩ := set_for0_loop noCall kw w tail (some (.bool false)) none none none none none none none none none none none
+  obtain ⟨hOk, hBad⟩ := set_for0_loop propCall kw w tail (some (.bool false)) none none none none none none none none none none none
     [[], [], []] (kwPV kw) [] [] [] hvq (fun e he => by simpa [Nat.blt_eq] using hlt e he) hnd (by simp)
     (fun e he => dset_same _ _ _ (by simpa [kwPV, Function.comp_def] using hnd)
       (List.mem_map.mpr ⟨e, he, by simp [pvOfIn]⟩))
   have hlz : w.creating = false → (clsOf w.sch w.c).lazy = true := by
     intro hc; simpa [hc] using hbr
-  unfold setF setProg set_nlocals set_nlists set_ndicts
+  unfold setF setFWith setProg set_nlocals set_nlists set_ndicts
   constructor
   · intro hok
     obtain ⟨b3, b4, b5, b6, b7, hb⟩ := hOk hok
     simp only [setSt, kwPV, pvOfIn] at hb
     have hitems : kw.map (fun x => (PV.name x.1).pair (ofVal x.2.val)) =
         (Fail.asgOf kw).map fun e => PV.pair (.name e.1) (ofVal e.2) := by simp [Fail.asgOf]
-    obtain ⟨c3, c4, hcl⟩ := set_cache_loop noCall set_for2 rfl (Fail.asgOf kw)
+    obtain ⟨c3, c4, hcl⟩ := set_cache_loop propCall set_for2 rfl (Fail.asgOf kw)
       { w with vq := tail } (some (.bool false)) none none b3 b4 b5 b6 b7 none none none none
       [[], [], []] (List.map (fun e => (e.1, ofVal e.2.val)) kw) [] (List.map (fun e => (e.1, ofVal e.2.val)) kw) []
     simp only [setSt] at hcl
